@@ -698,7 +698,7 @@ var c15kinds = []string{"task", "serviceTask", "userTask", "scriptTask", "sendTa
 	"intermediateCatchEvent", "intermediateThrowEvent", "boundaryEvent"}
 
 // c15proc builds start → xor(default) → {A if cond, B default} → end with a node of the given kind
-// between the gateway and A. condKind: formal | formalLang | informal | none.
+// between the gateway and A. condKind: formal | formalLang | formalXPath | informal | none.
 func c15proc(kind, condKind string, withDI, withCollab bool) *schema.Definitions {
 	d := schema.DefaultDefinitions()
 	d.IdField = sp("Definitions_1")
@@ -726,6 +726,10 @@ func c15proc(kind, condKind string, withDI, withCollab bool) *schema.Definitions
 		cond = c15formal("x > 1", nil)
 	case "formalLang":
 		cond = c15formal("  x > 1\n", &lang)
+	case "formalXPath":
+		// an explicit language that happens to be the SCHEMA default while the document's default is another one
+		xl := "http://www.w3.org/1999/XPath"
+		cond = c15formal("x > 1", &xl)
 	case "informal":
 		cond = c15informal("whenever")
 	}
@@ -1041,7 +1045,7 @@ func c15(out *rec.Out, rng *rec.Rng, tier string, stats map[string]int) {
 		}
 	}
 	// 2. hand-made definitions: every flow-node kind × condition kind
-	conds := []string{"formal", "formalLang", "informal", "none"}
+	conds := []string{"formal", "formalLang", "formalXPath", "informal", "none"}
 	for i, k := range c15kinds {
 		for j, c := range conds {
 			d := c15proc(k, c, (i+j)%2 == 0, (i+j)%3 == 0)
